@@ -780,7 +780,8 @@ def build_pipeline_inspection(
             if key in deleted_keys:
                 # Key is being recreated after deletion
                 deleted_keys.remove(key)
-            key_origin.setdefault(key, index)
+            # the latest writer is the one later nodes read from
+            key_origin[key] = index
 
         # Validate parameter availability against keys deleted by earlier nodes
         # (this node's own suppressions take effect after it has read its parameters)
